@@ -9,7 +9,7 @@ from harness import behave, core, tlc
 from harness.terms import canon, terms_equal, wire_match
 
 DATES = [["str", "%04d-02-28" % y] for y in (2019, 2020, 2021, 2022, 2023, 2024)]
-TABLE = [(["date", "int", "str"], DATES + [["int", 5], ["str", "t"]])]
+TABLE = [(["date", "int", "str"], DATES + [["int", 5], ["str", "t"]]), (["bytes"], [["str", "AQL/\n"]])]
 
 
 def _tables(wd, rep, **kw):
@@ -18,7 +18,7 @@ def _tables(wd, rep, **kw):
 
 
 def _matches(t, n, direction, d, act):
-    exp = t.calls[(n, direction, d)]
+    exp = t.calls[(n, direction, d, "dict", "none")]
     return wire_match(canon(exp), act) if direction == "to" else terms_equal(exp, act)
 
 
@@ -51,7 +51,7 @@ def forced_schedules(rep, tier, wd):
             n += 1
             for tid, (kind, val) in results.items():
                 if kind != "ok" or not _matches(t, "C", direction, d, val):
-                    rep.violation("thread-schedule", {"schedule": s, "thread": tid, "call": ["C", direction, d], "expected": t.calls[("C", direction, d)],
+                    rep.violation("thread-schedule", {"schedule": s, "thread": tid, "call": ["C", direction, d], "expected": t.calls[("C", direction, d, "dict", "none")],
                                                       "actual": val, "replay_module": "harness.checks.c14_extra"})
                     break
         finally:
@@ -94,7 +94,7 @@ def stress(rep, tier, seed, wd):
                 for i, call in enumerate(plan):
                     kind, val = out.get(i, ("exc", "thread did not finish"))
                     if kind != "ok" or not _matches(t, call[0], call[1], call[2], val):
-                        rep.violation("thread-stress", {"call": list(call), "expected": t.calls[tuple(call)], "actual": val, "round": rnd,
+                        rep.violation("thread-stress", {"call": list(call), "expected": t.calls[tuple(call) + ("dict", "none")], "actual": val, "round": rnd,
                                                         "replay_module": "harness.checks.c14_extra"})
                         return
             finally:
